@@ -98,6 +98,11 @@ CHECKS['C08'] = dict(engine='SYMREL', category='translation_validation', design=
    text='For each family member (2-way joins: 5 join kinds x 4 ON shapes x 11 WHERE shapes x 8 select/tail shapes; 3-way joins, comma/cross joins, IN / NOT IN / scalar subqueries on another integration, UNION/INTERSECT/EXCEPT across integrations, CTEs, FROM-subqueries) the real planner runs once and z3 shows that, for EVERY database content within the bound (NULLs, duplicates, empty tables), executing the emitted steps yields the same bag of rows as the original query on one engine holding all tables; a fetch step may only read tables of its own integration.',
    note='Trusted: z3; SYMREL and the plan interpreter (original side validated against sqlite3 per member per run; counterexamples replayed on sqlite3 including the fetch steps); step semantics from planner/steps.py docstrings. R=2 (quick, ~200 members) / 3 (thorough, full product) rows per table, values 0..3. Row order is not compared. Known finding: LIMIT pushed into the first table\'s fetch.')
 
+CHECKS['C06'] = dict(engine='SYMREL', category='translation_validation', design='4/C06',
+   technique='z3 relational encoding (SYMREL): the text produced by the real renderer for sqlite / mysql / postgresql is read back with the repo parser and compared with the original tree over all small database contents (queries: bag of rows; DML: resulting table contents); sat models replayed on sqlite3 with the original and the rendered text',
+   text='For each of 54 statements (operator grouping incl. NOT / nested parentheses / a-(b-1), every join kind incl. OUTER spellings, implicit and condition-less joins, IN/NOT IN/scalar/EXISTS subqueries, FROM-subqueries, set operations, CTE, GROUP BY/HAVING/aggregates/DISTINCT, ORDER BY..LIMIT/OFFSET, CASE, coalesce; DELETE, UPDATE, INSERT..VALUES, INSERT..SELECT) x 3 target dialects: for EVERY database content within the bound the rendered text denotes the same rows / the same resulting table as the original; statements the renderer refuses fall back to exactly the tree\'s own string.',
+   note='Trusted: z3; SYMREL (validated against sqlite3 per statement per run); the repo\'s mindsdb parser for read-back (C03) with sqlite3 replay as a guard; SQLAlchemy. R=2/3 rows per table, values 0..3 with NULLs. Window functions, string/date functions, CREATE/DROP TABLE, mssql/oracle are outside this check.')
+
 NA_PENDING = {}
 
 
